@@ -663,7 +663,8 @@ def _arr_any(ex, st, args, kw, node):
     if d.rank == 2:
         r, c = z3.Ints("r!any c!any")
         return z3.Exists([r, c], z3.And(r >= 0, r < d.shape[0], c >= 0, c < d.shape[1], ex.sel2(d, r, c)))
-    return COUNT(d.data, d.shape[0]) > 0
+    k = z3.Int("k!any")
+    return z3.Exists([k], z3.And(k >= 0, k < d.shape[0], ex.sel1(d, k)))
 
 
 def _arr_reshape(ex, st, args, kw, node):
